@@ -879,3 +879,7 @@ LEVEL_NOTE = ("Not proved, only validated by the correspondence run: the "
               "as-found behaviour - fields after the second ignored, IndexError for a single one - is kept as witness theorem "
               "Witness.C08.nc08d_third_field_ignored). The theorems speak about the code WITH the five fix patches in fixes/ applied; "
               "on the unpatched tree the corpus cases D18/D19/NC08a/NC08b/NC08c/NC08d fail and are reported as VIOLATIONs with replay.")
+
+# the TRANSLATED span kernels (Gen/Kernels.lean) are executed against the real kernels on cases derived from the ones above
+from checks.harness import genkernels  # noqa: E402
+genkernels.install(globals(), "C08")
